@@ -294,6 +294,14 @@ def run(ctx):
                 for j in range(n):
                     for k in (range(n) if ctx.thorough else rng.sample(range(n), 6)):
                         forms.append((f, {"a": i, "b": j, "c": k}))
+        # slices with both bounds written as literals: every combination of in-range / beyond-the-front / beyond-the-end on either side, on
+        # every operand (the two clamps are separate statements in the implementation, and the sampled `c` above reaches a particular
+        # pair of bounds only now and then)
+        lits = ["-7", "-3", "-1", "0", "1", "2", "3", "7", BIG, "-" + BIG]
+        for b_ in lits:
+            for c_ in lits:
+                for i in range(n):
+                    forms.append((f"a[{b_} to {c_}]", {"a": i}))
         add_jobs(False, forms)
         ctx.count("syntactic_form_evaluations", len(forms))
         bad = []
